@@ -169,4 +169,154 @@ theorem decRDiff_enc (f : Fmt) (hC : TabOK (tablesRMapChange f) 3) (hDt : TabOK 
       (fun c r h => decRChange_enc f hC V D wv wd hV hD c r h) es hd.1 hd.2 rest]
     rfl
 
+/-! derived struct diffs: entries framed by the rank of their field among the unskipped ones -/
+
+theorem rank_le (skips : List Bool) (j : Nat) : rank skips j ≤ j := by
+  induction skips generalizing j with
+  | nil => simp [rank]
+  | cons b t ih =>
+    cases j with
+    | zero => simp [rank]
+    | succ j => have := ih j; simp only [rank]; split <;> omega
+
+/-- the discriminant identifies the field: `unrank` inverts `rank` on unskipped positions -/
+theorem unrank_rank (skips : List Bool) (j : Nat) (h : skips[j]? = some false) : unrank skips (rank skips j) = some j := by
+  induction skips generalizing j with
+  | nil => simp at h
+  | cons b t ih =>
+    cases j with
+    | zero =>
+      simp only [List.getElem?_cons_zero, Option.some.injEq] at h
+      subst h; simp [rank, unrank]
+    | succ j =>
+      simp only [List.getElem?_cons_succ] at h
+      cases b with
+      | true => simp [rank, unrank, ih j h]
+      | false =>
+        simp only [rank, Bool.false_eq_true, if_false]
+        rw [show 1 + rank t j = rank t j + 1 by omega]
+        simp [unrank, ih j h]
+
+/-- two different unskipped fields never share a discriminant -/
+theorem rank_inj (skips : List Bool) (i j : Nat) (hi : skips[i]? = some false) (hj : skips[j]? = some false)
+    (h : rank skips i = rank skips j) : i = j := by
+  have h1 := unrank_rank skips i hi
+  have h2 := unrank_rank skips j hj
+  rw [h] at h1; rw [h1] at h2; exact Option.some.inj h2
+
+theorem decDTag_enc (f : Fmt) (t : Nat) (rest : Bytes) (h : t < 2 ^ 16) : decDTag f (encDTag f t ++ rest) = some (t, rest) := by
+  cases f
+  · exact readLE_le 2 t rest (by have : (256:Nat) ^ 2 = 2 ^ 16 := by decide
+                                 omega)
+  · exact readLE_le 4 t rest (by have : (256:Nat) ^ 4 = 4294967296 := by decide
+                                 have : (2:Nat) ^ 16 = 65536 := by decide
+                                 omega)
+
+variable {π : Type}
+
+/-- an entry is well-formed: it addresses an unskipped field and its payload satisfies that field's law -/
+def WFEntry (skips : List Bool) (wf : Nat → π → Prop) (e : Nat × π) : Prop := skips[e.1]? = some false ∧ wf e.1 e.2
+
+theorem decEntry_enc (f : Fmt) (skips : List Bool) (hs : skips.length < 2 ^ 16) (P : Nat → Cdc π) (wf : Nat → π → Prop)
+    (hP : ∀ j, (P j).Law (wf j)) (e : Nat × π) (rest : Bytes) (he : WFEntry skips wf e) :
+    decEntry f skips P (encEntry f skips P e ++ rest) = some (e, rest) := by
+  obtain ⟨j, p⟩ := e
+  obtain ⟨h1, h2⟩ := he
+  have hj : j < skips.length := by
+    rcases Nat.lt_or_ge j skips.length with h | h
+    · exact h
+    · simp [List.getElem?_eq_none h] at h1
+  have hr : rank skips j < 2 ^ 16 := Nat.lt_of_le_of_lt (rank_le skips j) (Nat.lt_trans hj hs)
+  simp only [encEntry, List.append_assoc, decEntry, decDTag_enc f _ _ hr, unrank_rank skips j h1, hP j p rest h2, Option.map_some]
+
+/-- **derived struct diffs survive the wire**: decode ∘ encode = id for every entry list addressing unskipped fields,
+for ANY payload codecs that are themselves inverse pairs, both formats -/
+theorem decEntries_enc (f : Fmt) (skips : List Bool) (hs : skips.length < 2 ^ 16) (P : Nat → Cdc π) (wf : Nat → π → Prop)
+    (hP : ∀ j, (P j).Law (wf j)) (es : List (Nat × π)) (hes : ∀ e ∈ es, WFEntry skips wf e) (hlen : es.length < 2 ^ 64)
+    (rest : Bytes) : decEntries f skips P (encEntries f skips P es ++ rest) = some (es, rest) :=
+  decList_enc (encEntry f skips P) (decEntry f skips P) (WFEntry skips wf)
+    (fun e r h => decEntry_enc f skips hs P wf hP e r h) es hes hlen rest
+
+/-- the borrowed diff enum has its variants in the same order: with payload encoders that write the same bytes, the
+serialized `DiffRef` list is byte-identical to the serialized `Diff` list -/
+theorem encEntries_ref_eq (f : Fmt) (skips : List Bool) (P Pr : Nat → Cdc π) (h : ∀ j p, (Pr j).enc p = (P j).enc p)
+    (es : List (Nat × π)) : encEntries f skips Pr es = encEntries f skips P es := by
+  have : encEntry f skips Pr = encEntry f skips P := by
+    funext e; simp only [encEntry, h]
+  simp only [encEntries, this]
+
+/-- what a payload must be for a field of the given kind -/
+def WFPV (isOpt : Bool) : PV → Prop
+  | .u v => isOpt = false ∧ v < 2 ^ 32
+  | .o none => isOpt = true
+  | .o (some v) => isOpt = true ∧ v < 2 ^ 32
+
+theorem pvCdc_law (isOpt : Bool) : (pvCdc isOpt).Law (WFPV isOpt) := by
+  intro x rest h
+  cases x with
+  | u v =>
+    obtain ⟨h1, h2⟩ := h
+    subst h1
+    simp [pvCdc, decElem_enc v rest h2]
+  | o v =>
+    cases v with
+    | none => simp only [WFPV] at h; subst h; simp [pvCdc]
+    | some v =>
+      obtain ⟨h1, h2⟩ := h
+      subst h1
+      simp [pvCdc, decElem_enc v rest h2]
+
+/-! recursive maps of flat values as fields -/
+
+def WFVals : List Bool → List PV → Prop
+  | [], [] => True
+  | o :: t, v :: vs => WFPV o v ∧ WFVals t vs
+  | _, _ => False
+
+theorem valsCdc_law (opts : List Bool) : (valsCdc opts).Law (WFVals opts) := by
+  intro vs rest h
+  induction opts generalizing vs with
+  | nil =>
+    cases vs with
+    | nil => simp [valsCdc, decVals]
+    | cons _ _ => simp [WFVals] at h
+  | cons o t ih =>
+    cases vs with
+    | nil => simp [WFVals] at h
+    | cons v vs =>
+      obtain ⟨h1, h2⟩ := h
+      have e1 : (pvCdc false).enc v = (pvCdc o).enc v := rfl
+      have := ih vs h2
+      simp only [valsCdc] at this ⊢
+      simp only [List.map_cons, List.flatten_cons, List.append_assoc, decVals, e1, pvCdc_law o v _ h1, this, Option.map_some]
+
+def WFLeafEntries (L : LeafTy) (es : List (Nat × PV)) : Prop :=
+  (∀ e ∈ es, WFEntry L.skips (fun j => WFPV (L.opts.getD j false)) e) ∧ es.length < 2 ^ 64
+
+theorem leafEntriesCdc_law (f : Fmt) (L : LeafTy) (hL : L.skips.length < 2 ^ 16) :
+    (leafEntriesCdc f L).Law (WFLeafEntries L) := by
+  intro es rest h
+  exact decEntries_enc f L.skips hL _ _ (fun j => pvCdc_law (L.opts.getD j false)) es h.1 h.2 rest
+
+/-- well-formed payload for a field of the given kind -/
+def WFPL : FKind → PL → Prop
+  | .flat o, .pv p => WFPV o p
+  | .rmap L, .rm d => L.skips.length < 2 ^ 16 ∧ WFRDiff (WFVals L.opts) (WFLeafEntries L) d
+  | _, _ => False
+
+theorem plCdc_law (f : Fmt) (hC : TabOK (tablesRMapChange f) 3) (hDt : TabOK (tablesRMapDiff f) 2) (k : FKind) :
+    (plCdc f k).Law (WFPL k) := by
+  intro p rest h
+  cases k with
+  | flat o =>
+    cases p with
+    | pv p => simp only [plCdc, pvCdc_law o p rest h, Option.map_some]
+    | rm d => simp [WFPL] at h
+  | rmap L =>
+    cases p with
+    | pv p => simp [WFPL] at h
+    | rm d =>
+      obtain ⟨hL, hd⟩ := h
+      simp only [plCdc, decRDiff_enc f hC hDt _ _ _ _ (valsCdc_law L.opts) (leafEntriesCdc_law f L hL) d rest hd, Option.map_some]
+
 end Codec
